@@ -1891,7 +1891,10 @@ impl<'bump, T: 'bump + Copy> Vec<'bump, T> {
     pub fn extend_from_slices_copy(&mut self, slices: &[&[T]]) {
         // Reserve the total amount of capacity we'll need to safely append the aggregated contents
         // of each slice in `slices`.
-        let capacity_to_reserve: usize = slices.iter().map(|slice| slice.len()).sum();
+        let capacity_to_reserve: usize = slices
+            .iter()
+            .try_fold(0usize, |total, slice| total.checked_add(slice.len()))
+            .unwrap_or_else(|| panic!("capacity overflow"));
         self.reserve(capacity_to_reserve);
 
         // SAFETY:
